@@ -1,0 +1,57 @@
+#pragma once
+
+// Verification hooks: everything in this header exists only when YACLIB_VERIF is defined.
+// With the table left empty (all pointers null) a YACLIB_VERIF build behaves like a normal build.
+#ifdef YACLIB_VERIF
+
+#  include <atomic>
+#  include <cstdint>
+#  include <cstring>
+
+namespace yaclib::verif {
+
+enum Kind : int {
+  kLoad = 0,
+  kStore = 1,
+  kRmw = 2,
+  kCasOk = 3,
+  kCasFail = 4,
+  kFence = 5,
+  kLock = 6,
+  kUnlock = 7,
+  kSpawn = 8,
+  kJoin = 9,
+  kOther = 10,
+};
+
+struct Hooks {
+  // Injector::NeedInject: -1 = run the original code, 0 = no yield, 1 = yield
+  int (*need_inject)() = nullptr;
+  // PollRandomElementFromList: returns the detail::fiber::Node* to poll, nullptr = run the original code
+  void* (*pick)(void* bilist) = nullptr;
+  // ShouldFailAtomicWeak: -1 = run the original code, 0 = no failure, 1 = spurious failure
+  int (*fail_weak)() = nullptr;
+  // GetRandNumber: -1 = run the original code, otherwise the answer (< max)
+  long long (*rand)(unsigned long long max) = nullptr;
+  // Scheduler::RunLoop: true = advance virtual time to the earliest sleeper although fibers are runnable
+  bool (*fire_timer)() = nullptr;
+  // Scheduler::RunLoop: id of the fiber about to be resumed
+  void (*resumed)(unsigned long long fiber_id) = nullptr;
+  // a visible operation was performed by the running fiber
+  void (*event)(int kind, const void* obj, int order, unsigned long long before, unsigned long long after) = nullptr;
+  // brackets the fault layer's own plain accesses (implementation of a fiber atomic)
+  void (*enter_prim)() = nullptr;
+  void (*leave_prim)() = nullptr;
+};
+
+extern Hooks gHooks;
+
+inline void Event(int kind, const void* obj, int order, unsigned long long before, unsigned long long after) {
+  if (gHooks.event != nullptr) {
+    gHooks.event(kind, obj, order, before, after);
+  }
+}
+
+}  // namespace yaclib::verif
+
+#endif
